@@ -412,6 +412,9 @@ func genExtended(r *rand.Rand, maxDepth, maxSize int) (string, []string) {
 		"if ( 1 == 2 ) { return 9; } else { trace(12); }\n", "if ( false ) { trace(13); }\n", "while ( 0 ) { trace(14); }\n",
 		"trace(3 - 5 + 10);\n", "trace(300 * 300 + 1);\n", "trace([1, 2 - 3 + 4]);\n", "trace(N * (300 * 300 + 1));\n", "trace(65535 + 1);\n", "trace(65534 + 1 - 1);\n",
 		"trace(7 / 2);\n", "trace(8 / 2 / 2);\n", "trace(2 - 3);\n", "trace(0 - 1 == -1);\n",
+		"v0 += 1 + 2;\n", "v0 -= N * 2;\n", "v0 *= 2;\n", "v0 /= 1 + 1;\n", "v0 += (B0 ? 1 : 2);\n", "v0++;\n", "v0--;\n",
+		"function g24() { 24; }\ng24();\n", "function g280() { 280; }\ng280();\n", "function gv() { v0 = 1; }\ngv();\n",
+		"function gi(a) { if ( a > 1 ) { return 24; } }\ntrace(gi(2));\n",
 	}
 	for f := 0; f < nf; f++ {
 		extras = append(extras, fmt.Sprintf("trace(f%d(%d, N));\n", f, r.Intn(4)), fmt.Sprintf("v0 = f%d(v0, %d);\n", f, r.Intn(4)))
@@ -539,6 +542,13 @@ func TestRAC_C03(t *testing.T) {
 		pv.Fails, pv.Kind, pv.Input, pv.Expected, pv.Got = true, v.Kind, v.Input, v.Expected, v.Got
 	}
 	rep.Probes = append(rep.Probes, pv)
+	src2 := "return OPTIMIZE;\n"
+	v2 := decide(func() *racVio { return checkC03(src2, nil, nil) })
+	pv2 := racVio{ID: "optimize-variable-visible", Script: src2}
+	if v2 != nil {
+		pv2.Fails, pv2.Kind, pv2.Input, pv2.Expected, pv2.Got = true, v2.Kind, v2.Input, v2.Expected, v2.Got
+	}
+	rep.Probes = append(rep.Probes, pv2)
 }
 
 // ---- C18 -----------------------------------------------------------------------------------------------------
@@ -639,5 +649,18 @@ func TestRAC_C18(t *testing.T) {
 	}
 	for _, v := range rep.Violations {
 		t.Logf("RAC-VIOLATION kind=%s\nscript:\n%s\n%s", v.Kind, v.Script, v.Got)
+	}
+	// the inputs of the listed finding (kept out of the generated programs): do they still fail?
+	for _, pr := range []struct{ id, src string }{
+		{"assignment-used-as-value", "v0 = 1;\nreturn v0 = 3;\n"},
+		{"assignment-used-as-value", "v0 = 1;\nif ( v0 = 3 ) { trace(1); }\n"},
+		{"assignment-used-as-value", "v0 = 1;\nv1 = v0++;\n"},
+	} {
+		v := checkC18(pr.src, nil)
+		pv := racVio{ID: pr.id, Script: pr.src}
+		if v != nil {
+			pv.Fails, pv.Kind, pv.Expected, pv.Got = true, v.Kind, v.Expected, v.Got
+		}
+		rep.Probes = append(rep.Probes, pv)
 	}
 }
